@@ -21,8 +21,8 @@ PROFILES = {"plain": {1: 1, 2: 2, 3: 3}, "falsy": {1: 0, 2: None, 3: ""}}
 QUICK = [("K=2 len<=2 ticks 0..1 faults", dict(K=2, MaxLen=2, Times={0, 1}, Faults=True, DspTicks=set()))]
 THOROUGH = [
     ("K=2 len<=2 ticks 0..1 faults dispose@0", dict(K=2, MaxLen=2, Times={0, 1}, Faults=True, DspTicks={0})),
-    ("K=2 len<=2 ticks 0..2 faults dispose@0,1", dict(K=2, MaxLen=2, Times={0, 1, 2}, Faults=True, DspTicks={0, 1})),
-    ("K=3 len<=2 ticks 0..1", dict(K=3, MaxLen=2, Times={0, 1}, Faults=False, DspTicks=set())),
+    ("K=2 len<=2 ticks 0..2 faults dispose@1", dict(K=2, MaxLen=2, Times={0, 1, 2}, Faults=True, DspTicks={1})),
+    ("K=3 len<=1 ticks 0..2 faults", dict(K=3, MaxLen=1, Times={0, 1, 2}, Faults=True, DspTicks=set())),
 ]
 
 
